@@ -33,7 +33,7 @@ theorem forestErrs_nil_iff (f : Forest) : forestErrs f = [] ↔ ∀ p ∈ f.tree
 /-! ### the conversion stage -/
 
 section Conv
-variable {s : Split} {R R' : Registry} (opts : Opts) (plug : Plug) (h : IsSplitOf s R R' plug)
+variable {s : Split} {R R' : Registry} (opts : Opts) (plug plug' : Plug) (h : IsSplitOf s R R' plug plug')
   (hlink : (linkAll R).2 = [])
 
 include h in
@@ -43,8 +43,8 @@ theorem wu_ok : (Wu R opts plug).OK :=
     rw [this] at e; exact absurd e (by decide))
 
 include h hlink in
-theorem ws_ok : (Ws s R R' opts plug).OK :=
-  Ws_ok opts plug h.text h.regs (IncludeLinkN.linkAll_splitN s R R' h.text h.regs hlink).2 h.visible h.plugOK h.pos' h.refs' h.fuel'
+theorem ws_ok : (Ws s R R' opts plug plug').OK :=
+  Ws_ok opts plug plug' h.text h.regs (IncludeLinkN.linkAll_splitN s R R' h.text h.regs hlink).2 h.visible h.plugOK h.pos' h.refs' h.fuel'
 
 theorem mkeys_eq_keyOrder (hr : RegsOK s R R') : keyOrder R = mkeysOf R := by
   rw [keyOrder_eq, skeys_R hr, List.append_nil]
@@ -116,14 +116,14 @@ include h hlink in
 split one; every other module has the same tree up to the module numbers; the owner's tree is the
 unsplit module's with the children in another order. -/
 theorem conv_split (hclean : forestErrs (forest0 R opts plug) = []) :
-    forestErrs (forest0 R' opts plug) = [] ∧
+    forestErrs (forest0 R' opts plug') = [] ∧
     (∀ x ∈ R.mods, x.seq ≠ s.m.seq → ∀ t, (forest0 R opts plug).tree? x.seq = some t →
-      ∃ t', (forest0 R' opts plug).tree? x.seq = some t' ∧ ren s.σ t' = t) ∧
+      ∃ t', (forest0 R' opts plug').tree? x.seq = some t' ∧ ren s.σ t' = t) ∧
     (∃ t, (forest0 R opts plug).tree? s.m.seq = some t) ∧
     (∀ t, (forest0 R opts plug).tree? s.m.seq = some t →
-      ∃ t', (forest0 R' opts plug).tree? s.m.seq = some t' ∧ SameTop s.σ t' t) := by
+      ∃ t', (forest0 R' opts plug').tree? s.m.seq = some t' ∧ SameTop s.σ t' t) := by
   have hr := h.regs
-  have hU := conv_unsplit R opts plug (wu_ok opts plug h) hr.R_modules_only
+  have hU := conv_unsplit R opts plug (wu_ok opts plug plug' h) hr.R_modules_only
   rw [mkeys_eq_keyOrder hr] at hU
   have hcleanU : ∀ p ∈ (tstate R opts plug).cache, Clean p.2 := (forestErrs_nil_iff _).1 hclean
   -- every module's unsplit entry is the pure fold, error free
@@ -142,7 +142,7 @@ theorem conv_split (hclean : forestErrs (forest0 R opts plug) = []) :
     exact (hpm X hX e he).2
   -- the unsplit module: the combinatorial part
   have hmk := m_mem_mkeys hr
-  have hN := nestOK opts plug h
+  have hN := nestOK opts plug plug' h
   have hFl : (s.subs.map (·.stmt)).length < entryFuel R' := by
     have := unstarted_lt_entryFuel hr
     have h1 : unstarted s [] = s.subs.length := by
@@ -156,7 +156,7 @@ theorem conv_split (hclean : forestErrs (forest0 R opts plug) = []) :
     intro sb hsb
     rw [List.contains_iff_mem]
     exact a9 sb.stmt (List.mem_map_of_mem hsb)
-  have hS := conv_split_state opts plug h.text hr (IncludeLinkN.linkAll_splitN s R R' h.text hr hlink).2 (ws_ok opts plug h hlink) hall
+  have hS := conv_split_state opts plug plug' h.text hr (IncludeLinkN.linkAll_splitN s R R' h.text hr hlink).2 (ws_ok opts plug plug' h hlink) hall
   -- the entries of the parts are error free
   have hpure : ∀ p, PureOf s R R' opts plug p → Clean p.2 := by
     rintro p ⟨Q, hQ, _, f', S', hn, hQS, hfu, hre⟩
@@ -175,7 +175,7 @@ theorem conv_split (hclean : forestErrs (forest0 R opts plug) = []) :
     have := hre.2 hcl
     exact (clean_ren s.σ _).1 (this ▸ hcl)
   -- the split cache is error free and what it should be
-  have hSC : ∀ p ∈ (tstate R' opts plug).cache, Clean p.2 ∧
+  have hSC : ∀ p ∈ (tstate R' opts plug').cache, Clean p.2 ∧
       ((∃ x ∈ mkeysOf R, x.seq ≠ s.m.seq ∧ x.seq = p.1 ∧ ren s.σ p.2 = pmodOf R opts plug x) ∨
        (p.1 = s.owner.seq ∧ ren s.σ p.2 = (pp s R R' opts plug (entryFuel R') [] s.owner.stmt).1) ∨
        (∃ sb ∈ s.subs, p.1 = sb.seq)) := by
@@ -198,9 +198,9 @@ theorem conv_split (hclean : forestErrs (forest0 R opts plug) = []) :
     have hdone : Y ∈ (mkeysOf R).map (IncludeLink.repl s) :=
       List.mem_map.2 ⟨Y, hY, IncludeLink.repl_of_ne hne⟩
     obtain ⟨e, he⟩ := hS.cached Y hdone
-    obtain ⟨t', ht2⟩ := tree?_of_mem (f := forest0 R' opts plug) he
+    obtain ⟨t', ht2⟩ := tree?_of_mem (f := forest0 R' opts plug') he
     refine ⟨t', ht2, ?_⟩
-    have hmem' : (Y.seq, t') ∈ (tstate R' opts plug).cache := tree?_mem ht2
+    have hmem' : (Y.seq, t') ∈ (tstate R' opts plug').cache := tree?_mem ht2
     rcases (hSC _ hmem').2 with ⟨x', hx', _, h2, h3⟩ | ⟨h1', _⟩ | ⟨sb, hsb, h1'⟩
     · have : x' = Y := IncludeBind.seq_inj hr (mem_mkeys_mods hx') hx h2
       subst this
@@ -216,9 +216,9 @@ theorem conv_split (hclean : forestErrs (forest0 R opts plug) = []) :
       List.mem_map.2 ⟨s.m, hmk, IncludeLink.repl_m s⟩
     obtain ⟨e, he⟩ := hS.cached s.owner hdone
     rw [hr.owner_seq] at he
-    obtain ⟨t', ht2⟩ := tree?_of_mem (f := forest0 R' opts plug) he
+    obtain ⟨t', ht2⟩ := tree?_of_mem (f := forest0 R' opts plug') he
     refine ⟨t', ht2, ?_⟩
-    have hmem' : (s.m.seq, t') ∈ (tstate R' opts plug).cache := tree?_mem ht2
+    have hmem' : (s.m.seq, t') ∈ (tstate R' opts plug').cache := tree?_mem ht2
     rcases (hSC _ hmem').2 with ⟨x', hx', h1', h2, _⟩ | ⟨_, h3⟩ | ⟨sb, hsb, h1'⟩
     · exact absurd h2 h1'
     · rw [ht', pmodOf_m]
@@ -486,7 +486,7 @@ theorem stampAt_sameTop (σ : Nat → Nat) (t' t : Entry) (h : SameTop σ t' t) 
 /-! ### `processAll` -/
 
 section Process
-variable {s : Split} {R R' : Registry} (opts : Opts) (plug : Plug) (h : IsSplitOf s R R' plug)
+variable {s : Split} {R R' : Registry} (opts : Opts) (plug plug' : Plug) (h : IsSplitOf s R R' plug plug')
 
 include h in
 theorem noAugDev_split (hna : NoAugDev R) : NoAugDev R' := by
@@ -503,7 +503,7 @@ theorem noAugDev_split (hna : NoAugDev R) : NoAugDev R' := by
   · exact ⟨(h.text.sub_no_aug x hx).1, (h.text.sub_no_aug x hx).2.1⟩
 
 include h in
-theorem stage1_split (h1 : stage1Errs R plug = []) : (linkAll R).2 = [] ∧ stage1Errs R' plug = [] := by
+theorem stage1_split (h1 : stage1Errs R plug = []) : (linkAll R).2 = [] ∧ stage1Errs R' plug' = [] := by
   unfold stage1Errs at h1 ⊢
   simp only [List.append_eq_nil_iff] at h1 ⊢
   obtain ⟨⟨l1, l2⟩, l3⟩ := h1
@@ -512,17 +512,17 @@ theorem stage1_split (h1 : stage1Errs R plug = []) : (linkAll R).2 = [] ∧ stag
 include h in
 /-- **`processAll` on the split set**, when no loaded module has augment or deviation statements. -/
 theorem process_split (hna : NoAugDev R) (hclean : (processAll R opts plug).errors = []) :
-    (processAll R' opts plug).errors = [] ∧
+    (processAll R' opts plug').errors = [] ∧
     (∀ x ∈ R.mods, x.seq ≠ s.m.seq → ∀ t, (processAll R opts plug).forest.tree? x.seq = some t →
-      ∃ t', (processAll R' opts plug).forest.tree? x.seq = some t' ∧ ren s.σ t' = t) ∧
+      ∃ t', (processAll R' opts plug').forest.tree? x.seq = some t' ∧ ren s.σ t' = t) ∧
     (∃ t, (processAll R opts plug).forest.tree? s.m.seq = some t) ∧
     (∀ t, (processAll R opts plug).forest.tree? s.m.seq = some t →
-      ∃ t', (processAll R' opts plug).forest.tree? s.m.seq = some t' ∧ SameTop s.σ t' t) := by
+      ∃ t', (processAll R' opts plug').forest.tree? s.m.seq = some t' ∧ SameTop s.σ t' t) := by
   obtain ⟨c1, c2⟩ := IncludeNoAug.processAll_clean_stages R opts plug hclean
-  obtain ⟨hlink, c1'⟩ := stage1_split plug h c1
-  obtain ⟨k1, k2, k3, k4⟩ := conv_split opts plug h hlink c2
+  obtain ⟨hlink, c1'⟩ := stage1_split plug plug' h c1
+  obtain ⟨k1, k2, k3, k4⟩ := conv_split opts plug plug' h hlink c2
   obtain ⟨_, fR⟩ := IncludeNoAug.processAll_noAugDev R opts plug hna c1 c2
-  obtain ⟨eR', fR'⟩ := IncludeNoAug.processAll_noAugDev R' opts plug (noAugDev_split plug h hna) c1' k1
+  obtain ⟨eR', fR'⟩ := IncludeNoAug.processAll_noAugDev R' opts plug' (noAugDev_split plug plug' h hna) c1' k1
   rw [fR, fR']
   refine ⟨eR', ?_, ?_, ?_⟩
   · intro x hx hne t ht
@@ -564,10 +564,10 @@ include h in
 /-- **Namespace, read-only status and every node below the root** of the owner's tree and of the
 unsplit module's tree agree, at every path. -/
 theorem process_split_paths (hna : NoAugDev R) (hclean : (processAll R opts plug).errors = []) (p : Path) :
-    namespaceAt R' (processAll R' opts plug).forest (s.m.seq, p) = namespaceAt R (processAll R opts plug).forest (s.m.seq, p) ∧
-    ∀ t' t, (processAll R' opts plug).forest.tree? s.m.seq = some t' → (processAll R opts plug).forest.tree? s.m.seq = some t →
+    namespaceAt R' (processAll R' opts plug').forest (s.m.seq, p) = namespaceAt R (processAll R opts plug).forest (s.m.seq, p) ∧
+    ∀ t' t, (processAll R' opts plug').forest.tree? s.m.seq = some t' → (processAll R opts plug).forest.tree? s.m.seq = some t →
       t'.readOnlyAt p = t.readOnlyAt p ∧ (p ≠ [] → (t'.getAt p).map (ren s.σ) = t.getAt p) := by
-  obtain ⟨_, _, ⟨t, ht⟩, k4⟩ := process_split opts plug h hna hclean
+  obtain ⟨_, _, ⟨t, ht⟩, k4⟩ := process_split opts plug plug' h hna hclean
   obtain ⟨t', ht', hst⟩ := k4 t ht
   have hnd := names_nodup_of_clean R opts plug hclean _ t ht
   constructor
